@@ -50,8 +50,37 @@ def model_ctx(model, tr, name):
         params[k] = tr.sym(k)
     attrs = {}
     if ci.find_assign("minus_rt") is not None:
-        attrs["minus_rt"] = -tr.sym("RT")
+        attrs["minus_rt"] = derived_constant(model, ci, "minus_rt")
     return ci, SelfCtx(ci, params=params, attrs=attrs), pn
+
+
+_DERIVED = {}
+
+
+def derived_constant(model, ci, attr):
+    """the value __init_parameters__({'temperature': T}) gives a temperature-dependent model constant (DR / DA: minus_rt), as a
+    sympy term over the positive symbols R and T - interpreted, so that a wrong sign or factor enters every identity below"""
+    key = (id(model), ci.qualname, attr)
+    if key in _DERIVED:
+        return _DERIVED[key]
+    from ..absint import Obj
+    from ..domain import make_interp
+    I = make_interp(model)
+    I.sympy_mode = True
+    init = ci.find_method("__init_parameters__")
+    if init is None:
+        raise AnalysisError(f"anchor missing: {ci.name}.__init_parameters__ (sets {attr})")
+    T = sp.Symbol("T", positive=True)
+
+    def thunk(I):
+        o = Obj(cls=ci, label="model", attrs={"params": {}})
+        I.call_func(init, [{"temperature": T}], {}, None, self_obj=o)
+        return o.attrs.get(attr)
+    outs = I.explore(thunk)
+    if len(outs) != 1 or outs[0].kind != "ok" or not isinstance(outs[0].value, sp.Basic):
+        raise AnalysisError(f"{ci.name}.__init_parameters__ does not set {attr} to a closed form: {outs[:1]}")
+    _DERIVED[key] = outs[0].value
+    return outs[0].value
 
 
 def r_registry(ctx: Ctx, model, tr):
@@ -185,6 +214,53 @@ def r_branch(ctx: Ctx, model, tr):
         ctx.analysed[f"branch points {name}"] = npts
 
 
+def r_array(ctx: Ctx, model):
+    """scalars and arrays alike, including the zero point: pressure([0, n1, n2]) of the closed-form inverses is, element by element,
+    what the scalar calls give (the 0/0 of the quadratic formula at zero loading is repaired wherever it occurs in the array) -
+    interpreted at one exact parameter point with the array algebra done on symbolic elements (ndsym)"""
+    import numpy as _np
+    from ..absint import Obj
+    from ..domain import make_interp
+    from ..ndsym import install_nd, to_np
+    ctx.rule("M-array [exact point]: pressure(array containing 0 and non-zero loadings) == [pressure(x) for x in array] for the closed-form "
+             "inverses; pressure(0) == 0")
+    R = sp.Rational
+    n = 0
+    for name in QUADRATIC:
+        ci = model.cls(f"{MOD}.{name.lower()}.{name}")
+        I = make_interp(model)
+        install_nd(I)
+        pn = I.class_const(ci, ci.find_assign("param_names")[1])
+        pn = (pn,) if isinstance(pn, str) else tuple(pn)
+        vals = {"n_m": R(5), "n_m1": R(3), "n_m2": R(2), "C": R(50), "N": R(1, 10), "K": R(3, 4) if name == "GAB" else R(2), "K1": R(2), "K2": R(1, 3),
+                "Ka": R(2), "Kb": R(1, 3)}
+        params = {k_: vals.get(k_, R(7, 5)) for k_ in pn}
+        mk_self = lambda: Obj(cls=ci, label="model", attrs={"params": dict(params), "name": name})
+        fl, fp = ci.find_method("loading"), ci.find_method("pressure")
+        loads = []
+        for pv in (R(1, 20), R(1, 2)):
+            o = I.explore(lambda I: I.call_func(fl, [pv], {}, None, self_obj=mk_self()))
+            if len(o) != 1 or o[0].kind != "ok":
+                raise AnalysisError(f"{name}.loading({pv}) at the exact point cannot be evaluated: {o[:1]}")
+            loads.append(sp.nsimplify(sp.simplify(o[0].value)))
+        scal = []
+        for x in [sp.Integer(0)] + loads:
+            o = I.explore(lambda I: I.call_func(fp, [x], {}, None, self_obj=mk_self()))
+            scal.append(sp.simplify(o[0].value) if len(o) == 1 and o[0].kind == "ok" else f"raises {o[0].exc.name}" if o else "no outcome")
+        arr = _np.array([sp.Integer(0)] + loads, dtype=object)
+        o = I.explore(lambda I: I.call_func(fp, [arr], {}, None, self_obj=mk_self()))
+        got = [sp.simplify(x) for x in to_np(I, o[0].value)] if len(o) == 1 and o[0].kind == "ok" and isinstance(to_np(I, o[0].value), _np.ndarray) else \
+            (f"raises {o[0].exc.name}" if o and o[0].kind != "ok" else repr(o[0].value) if o else "no outcome")
+        n += 1
+        ok = isinstance(got, list) and len(got) == 3 and all(isinstance(a_, sp.Basic) and isinstance(b_, sp.Basic) and sp.simplify(a_ - b_) == 0
+                                                               for a_, b_ in zip(got, scal)) and scal[0] == 0
+        ctx.ob(ok, Finding("C10.M-array", fp.where, f"{name}|array-with-zero",
+                           f"{name} (parameters {dict((k_, str(v)) for k_, v in params.items())}): pressure([0, {loads[0]}, {loads[1]}]) gives {got} but the scalar "
+                           f"calls give {scal}: arrays and scalars must agree and the zero point must map to 0"),
+               nontrivial_key=("array", name))
+    ctx.floor("closed-form inverses evaluated on arrays", n, 4)
+
+
 def r_numinv(ctx: Ctx, model, tr):
     """numerical inverses, interpreted with the root finder summarised (its objective is evaluated on a symbolic unknown; its
     success flag is explored both ways) - wherever the call sits (method body, shared helper of the base class, ...)"""
@@ -297,6 +373,73 @@ def r_numinv(ctx: Ctx, model, tr):
                                                             f"(paths: {saw})"), nontrivial_key=("numinv", name, "both"))
 
 
+# models whose loading(p) the property calls non-decreasing and non-negative on the stated domain, with the domain restrictions of its
+# quantifier (below the BET/GAB pole; TemkinApprox only for |theta| <= 3; Quadratic with non-negative constants = its bounds)
+MONO_DOMAIN = {
+    "Henry": {}, "Langmuir": {}, "DSLangmuir": {}, "TSLangmuir": {}, "Freundlich": {}, "Toth": {}, "JensenSeaton": {}, "Quadratic": {},
+    "DR": {"p": "relative"}, "DA": {"p": "relative"}, "BET": {"p": "below-pole"}, "GAB": {"p": "below-pole"},
+    "TemkinApprox": {"tht": [sp.Rational(-1), sp.Rational(1, 2), sp.Rational(2)]},
+}
+
+
+def r_mono_refute(ctx: Ctx, model, tr, lists):
+    """Refutation only: dn/dp (the derivative of the term translated from the source) is evaluated exactly at a grid of rational
+    parameter / pressure points of the stated domain; a point with dn/dp < 0 or n < 0 is a counterexample computed from the source
+    formula.  No counterexample is NOT a proof - the clause then stays as decided (or undecided) by M-mono above."""
+    import itertools
+    ctx.rule("M-mono (refutation) [exact points]: no grid point of the stated domain has dn/dp < 0 or n < 0 for the loading-explicit models")
+    R = sp.Rational
+    p = tr.sym("p")
+    tested = 0
+    for name in lists["_MODELS"]:
+        if name not in MONO_DOMAIN:
+            continue
+        ci, mc, pn = model_ctx(model, tr, name)
+        n = tr.method(mc, "loading", [p])
+        if isinstance(n, OptResult):
+            continue
+        d = sp.diff(n, p)
+        syms = sorted(mc.params.values(), key=str)
+        dom = MONO_DOMAIN[name]
+        grids = []
+        for sy in syms:
+            nm = str(sy)
+            if nm in dom:
+                grids.append(dom[nm])
+            elif nm in ("N",) or (nm == "K" and name == "GAB"):
+                grids.append([R(1, 10), R(3, 4)])
+            elif nm in ("m", "t", "c"):
+                grids.append([R(1, 2), R(2), R(3)])
+            else:
+                grids.append([R(1, 3), R(5, 2)])
+        pts = [R(1, 50), R(1, 5), R(3, 5), R(9, 10)] if dom.get("p") in ("relative", "below-pole") else [R(1, 50), R(1, 2), R(3), R(40)]
+        worst = None
+        for vals in itertools.islice(itertools.product(*grids), 0, 64 if ctx.tier == "thorough" else 24):
+            sub = dict(zip(syms, vals))
+            if name == "Quadratic":
+                pass
+            for pv in pts:
+                if dom.get("p") == "below-pole":
+                    pole = [v for k_, v in sub.items() if str(k_) in ("N", "K")]
+                    if pole and pv * max(pole) >= 1:
+                        continue
+                tested += 1
+                dv = d.subs(sub).subs(p, pv)
+                nv = n.subs(sub).subs(p, pv)
+                try:
+                    dneg, nneg = bool(sp.N(dv, 30) < -sp.Float("1e-25")), bool(sp.N(nv, 30) < -sp.Float("1e-25"))
+                except TypeError:
+                    continue
+                if dneg or nneg:
+                    worst = worst or ({str(k_): str(v) for k_, v in sub.items()}, str(pv), str(sp.N(nv, 8)), str(sp.N(dv, 8)))
+        ctx.ob(worst is None, Finding("C10.M-mono", ci.methods["loading"].where, f"{name}|decreasing-or-negative-at-a-point",
+                                      f"{name}: with parameters {worst[0] if worst else ''} at p = {worst[1] if worst else ''} the loading is "
+                                      f"{worst[2] if worst else ''} and dn/dp = {worst[3] if worst else ''}: inside the validity range the loading must be "
+                                      "non-negative and non-decreasing in pressure", {"witness": worst}),
+               nontrivial_key=("mono-refute", name))
+    ctx.floor("monotonicity refutation points", tested, 300)
+
+
 def r_zero_henry_mono(ctx: Ctx, model, tr, lists):
     ctx.rule("M-zero / M-henry / M-mono [ALG]: n(0)=0, lim n/p = Henry slope, dn/dp>0 and n<saturation where decidable")
     p, L = tr.sym("p"), tr.sym("L")
@@ -359,7 +502,9 @@ def run(ctx: Ctx):
     r_branch(ctx, model, tr)      # exact-point counterexamples first: they stand even if a normal form cannot be reached later
     r_inverse(ctx, model, tr)
     r_numinv(ctx, model, tr)
+    r_array(ctx, model)
     r_zero_henry_mono(ctx, model, tr, lists)
+    r_mono_refute(ctx, model, tr, lists)
     ctx.analysed["models"] = lists["_MODELS"]
     ctx.rule("M-iso: evaluating through a ModelIsotherm (pressure / loading_at / pressure_at / spreading_pressure_at) is the bare model "
              "applied to F_in * x and scaled by F_out, with the permanent-conversion factors, for every stored representation x request "
